@@ -86,9 +86,11 @@ TObs == /\ IsEvent("itobs")
                               [] e.call = "rev" -> Reverse(rem)
                               [] e.call = "step_by" -> EveryKth(rem, n)
                               [] e.call = "debug" -> DebugOf(Len(rem))
-                IN Require(~e.panic /\ e.items = want, l, "adapter " \o e.call,
-                           [def |-> E.id, prof |-> e.prof, handle |-> e.h, arg |-> IF e.big THEN "big" ELSE ToString(e.n),
-                            observed |-> e.items, panic |-> e.panic, expected |-> want])
+                    detail == [def |-> E.id, prof |-> e.prof, handle |-> e.h, arg |-> IF e.big THEN "big" ELSE ToString(e.n),
+                               observed |-> e.items, panic |-> e.panic, expected |-> want]
+                \* the adapters follow from the iterator contract (C05); the Debug rendering is demanded by no property
+                IN IF e.call = "debug" THEN Observe(~e.panic /\ e.items = want, l, "Debug of the iterator", detail)
+                   ELSE Require(~e.panic /\ e.items = want, l, "adapter " \o e.call, detail)
         /\ UNCHANGED <<E, L, N, its, lost>>
 
 \* C04: the whole list, forwards and backwards, payloads, COUNT
